@@ -66,6 +66,10 @@ Scen == [w |-> w, exit |-> exitc, reported |-> reported,
          report |-> [c \in Status |-> report[c]],
          proc |-> {[name |-> m, st |-> proc[m].st] : m \in DOMAIN proc},
          written |-> Written(log), idx |-> idxw]
+\* quick tiers: the worlds of a slice are only ENUMERATED here (initial states, no step); the sampled ones are then run
+\* to their end - with the property formulas as invariants - by the trace specifications
+NoStep == FALSE /\ UNCHANGED allvars
+ExportWorldInit == PrintT(ToJson([w |-> w]))
 ExportWorld == (dpc = "done") => PrintT(ToJson([w |-> w]))
 Export == (dpc = "done") => PrintT(ToJson(Scen))
 ====
